@@ -17,7 +17,7 @@ class C12(Prop):
     id = "C12"
     driver = "Broker"
     quick_n = 600
-    thorough_n = 20000
+    thorough_n = 100000
     rule = ("exact (dyadic) regime so that doubles and rationals decide every comparison identically: deposit 65536, "
             "prices powers of two, zero spread and fees (NLV stays dyadic), integer / quarter holdings reached by "
             "trades, targets k/8 (weights) or k/4 contracts, thresholds k/8 or 0, fractional and whole-lot modes; "
@@ -87,6 +87,9 @@ class C12(Prop):
             if rng.random() < 0.6:
                 lots = nlv / price[k] / mult[k]
                 q = lots * Fraction(rng.randint(-6, 6), 8)
+                if margin and rng.random() < 0.35:
+                    # a position worth less than the threshold: closing it must still go through
+                    q = lots * margin * Fraction(rng.choice([-3, -2, -1, 1, 2, 3]), 4)
                 if whole and rng.random() < 0.5:
                     q += Fraction(rng.choice([-3, -1, 1, 3]), 4)  # leaves a sub-lot imbalance later
                 if q != 0:
@@ -94,6 +97,9 @@ class C12(Prop):
                     ops.append(["tradeq", k, fr(q), t])
         tgt = {}
         for k in rng.sample(keys, rng.randint(0, len(keys))):
+            if rng.random() < 0.25:
+                tgt[k] = "0"      # an explicit zero target: dropped by the allocation, i.e. "absent from the target"
+                continue
             if by_weight:
                 w = Fraction(rng.randint(-8, 8), 8)
                 if margin and rng.random() < 0.5:
